@@ -74,6 +74,7 @@ Definition c10_core_step (c0 tdrv tis : Z) (w : wst) (o : op) (x : out) : option
   | Tick d => Some (mkW (now + d) (w_tprev w) (w_hb w) (w_hbenv w) (w_bound w) (w_inactive w) closed_after)
   | SetDriverHb t => Some (mkW now (w_tprev w) t (w_hbenv w) (w_bound w) (w_inactive w) closed_after)
   | SetHbCounter v => Some (mkW now (w_tprev w) (w_hb w) v (w_bound w) (w_inactive w) closed_after)
+  | SetRingFull _ => Some w'
   | DoWork BLapped | DoWork BOversize =>
       match r, cbs, cmds with
       | Err _, [], [] => Some (mkW now now (w_hb w) (w_hbenv w) (w_bound w) (w_inactive w) closed_after)
@@ -158,19 +159,19 @@ Definition counters_closed (regs : list (kind * Z * life)) (cbs : list cb) : boo
 (* the life-cycle automaton of C09 runs along; at the operation in which the close handler fires the counters are
    compared with the registrations as they are after that operation's event. Once the automaton has rejected an
    observation (C09's business) its facts are no longer used. *)
-Fixpoint c10_ctrs_run (c0 tdrv : Z) (q : ost) (ops : list op) (outs : list out) : bool :=
+Fixpoint c10_ctrs_run (c0 tdrv : Z) (full : bool) (q : ost) (ops : list op) (outs : list out) : bool :=
   match ops, outs with
   | o :: ops', x :: outs' =>
-      match c09_step c0 tdrv q o x with
+      match c09_step c0 tdrv full q o x with
       | Next q' =>
           let cbs := snd (fst x) in
           let ctr_event := match o with DoWork (BEvent (EvUnavailCounter _ _)) => true | _ => false end in
           if negb (q_closed q) && existsb is_close_cb cbs && negb ctr_event && negb (counters_closed (q_regs q') cbs)
-          then false else c10_ctrs_run c0 tdrv q' ops' outs'
+          then false else c10_ctrs_run c0 tdrv (match o with SetRingFull b => b | _ => full end) q' ops' outs'
       | _ => true
       end
   | _, _ => true
   end.
 
 Definition holds_c10 (c0 now0 tdrv tis : Z) (ops : list op) (outs : list out) : bool :=
-  c10_core_run c0 tdrv tis (winit now0) ops outs && c10_imgs_run [] false outs && c10_ctrs_run c0 tdrv (oinit c0 now0) ops outs.
+  c10_core_run c0 tdrv tis (winit now0) ops outs && c10_imgs_run [] false outs && c10_ctrs_run c0 tdrv false (oinit c0 now0) ops outs.
